@@ -53,6 +53,10 @@ var maskPath = map[string]string{
 }
 var useMask bool
 
+// badMask: the read mask names a field the items do not have. A request like that is either refused or answered by a
+// listing that still pages to its end, page sizes and total as ever (what is shown of each item is another matter).
+var badMask bool
+
 func masked(req proto.Message) proto.Message {
 	if !useMask {
 		return req
@@ -62,6 +66,9 @@ func masked(req proto.Message) proto.Message {
 	path, ok := maskPath[string(m.Descriptor().FullName())]
 	if fd == nil || !ok {
 		return req
+	}
+	if badMask {
+		path = "no_such_field"
 	}
 	m.Set(fd, protoreflect.ValueOfMessage((&fieldmaskpb.FieldMask{Paths: []string{path}}).ProtoReflect()))
 	return req
@@ -346,6 +353,7 @@ type pcase struct {
 	Upsert     bool   // the items were created by masked upserts
 	EmptyMask  bool   // ... whose update mask names no field
 	Restricted bool   // the model's collection has writable fields configured that leave out the key
+	BadMask    bool   // with Masked: the read mask names a field the items do not have
 	PT         bool   // the lister's real tokens are base64 of a types.PageToken, and Token does NOT decode as one: it is malformed and must be refused
 }
 
@@ -374,8 +382,11 @@ func walk(l lister, c pcase, fail func(k, m string), tokens map[string]bool) {
 	lowerIDs = c.Lower
 	upsertItems = c.Upsert
 	upsertEmptyMask = c.EmptyMask
+	badMask = c.BadMask
 	restrictW = c.Restricted
-	defer func() { useMask, lowerIDs, upsertItems, restrictW, upsertEmptyMask = false, false, false, false, false }()
+	defer func() {
+		useMask, lowerIDs, upsertItems, restrictW, upsertEmptyMask, badMask = false, false, false, false, false, false
+	}()
 	var list func(int32, string) (page, error)
 	var want []string
 	buildPanic := func() (p any) {
@@ -388,7 +399,9 @@ func walk(l lister, c pcase, fail func(k, m string), tokens map[string]bool) {
 		if len(c.Ids) > 8 {
 			ids = fmt.Sprintf("%d ids", len(c.Ids))
 		}
-		if c.Masked {
+		if c.Masked && c.BadMask {
+			clause += "(read mask naming a field the items do not have)"
+		} else if c.Masked {
 			clause += "(read mask without the key)"
 		}
 		if c.Then != 0 {
@@ -438,10 +451,10 @@ func walk(l lister, c pcase, fail func(k, m string), tokens map[string]bool) {
 			return
 		}
 		if err != nil {
-			if c.Token == "" {
+			if c.Token == "" && !c.BadMask {
 				fail(key("error"), fmt.Sprintf("valid request failed: %v", err))
 			}
-			return // a corrupted token may be rejected
+			return // a corrupted token (or a mask naming no field of the items) may be rejected
 		}
 		if n == 0 && c.PT {
 			fail(key("malformed-token-accepted"), fmt.Sprintf("the token does not decode as a page token (the server's own tokens are base64 of a types.PageToken) and was answered with a page of %d items and next token %q instead of an error status", len(p.items), p.next))
@@ -660,6 +673,13 @@ func main() {
 						s.Eval(1)
 						s.Trans(1)
 						walk(l, cm, func(k, m string) { s.Fail(k, m, cm) }, nil)
+						if size <= 3 {
+							cb := cm
+							cb.BadMask = true
+							s.Eval(1)
+							s.Trans(1)
+							walk(l, cb, func(k, m string) { s.Fail(k, m, cb) }, nil)
+						}
 					}
 					s.State(fmt.Sprintf("%s n=%d size=%d", l.name, len(ids), size))
 					if len(ids) > 1 && size > 0 && int(size) < len(ids) {
